@@ -7,7 +7,8 @@ ID="$1"; V="$2"; shift 2
 PROP="${ID%%r*}"
 cd "$(dirname "$0")/.."
 SRC=/tmp/seeded-out/$ID
-ver=$(tools/verify_seed.sh "$ID" "$V" 2>&1); vrc=$?
+# a verification done beforehand (tools/verify_seed.sh ... > $SRC/$V.verify.txt; echo $? > $SRC/$V.verify.rc) is reused
+if [ -f "$SRC/$V.verify.rc" ]; then ver=$(cat "$SRC/$V.verify.txt"); vrc=$(cat "$SRC/$V.verify.rc"); else ver=$(tools/verify_seed.sh "$ID" "$V" 2>&1); vrc=$?; fi
 echo "$ver" | tail -6
 det=$(tools/try_patch.sh "$SRC/$V.patch.diff" quick "$PROP" "$@" 2>&1)
 echo "$det"
